@@ -428,6 +428,13 @@ pub fn run(args: &[String]) -> Value {
             continue;
         }
         if exp_status == "inconclusive" || r.status == "budget" {
+            // the specification predicts no result here (values outside its exact domain, unspecified iterator
+            // values); a panic is still not an outcome of the abstract machine
+            match r.status.as_str() {
+                "parse-panic" => bad("parse-panic", r.detail.clone(), &mut mm),
+                "panic" => bad("panic", r.detail.clone(), &mut mm),
+                _ => {}
+            }
             *counts.entry("inconclusive".into()).or_insert(0) += 1;
             continue;
         }
@@ -456,7 +463,12 @@ pub fn run(args: &[String]) -> Value {
             "panic" => bad("panic", r.detail.clone(), &mut mm),
             "rejected" => {
                 let allowed = case["allow_parse"].as_array().map(|a| a.iter().any(|x| x.as_str() == Some(r.parse.as_str()))).unwrap_or(false);
-                if exp_status == "rejected" || allowed {
+                // generated programs contain random constant sub-expressions; one that fails while being folded is
+                // reported by the checker as an error of that class (documented; C03 decides its totality)
+                let fold_error = suite == "gen" && ["ZeroDivision", "ZeroModulo", "OverflowShift", "IndexOutOfBounds", "NegativeLength"].contains(&r.parse.as_str());
+                if fold_error {
+                    *counts.entry("rejected-constant-folding-error".into()).or_insert(0) += 1;
+                } else if exp_status == "rejected" || allowed {
                     *counts.entry("rejected-as-allowed".into()).or_insert(0) += 1;
                 } else {
                     bad("rejected", format!("checker refused a program of the suite: {}", r.detail), &mut mm);
